@@ -72,7 +72,35 @@ fn fresh_row(case: &Case, r: &mut Prng, ident: Option<&str>) -> Vec<Entry> {
 
 fn perturb(case: &mut Case, r: &mut Prng) -> &'static str {
     let n_sig = case.signals.len();
-    match r.below(17) {
+    match r.below(19) {
+        17 | 18 => {
+            // a declaration that reads a name which is a VARIABLE at that point (declarations see
+            // no variables: it reads the output of that name, which must then exist), placed
+            // right after an ordinary expression has read the same name as a variable
+            let lets: Vec<(usize, String)> = case
+                .program
+                .items
+                .iter()
+                .enumerate()
+                .filter_map(|(i, it)| if let Item::Let(n, _) = it { Some((i, n.clone())) } else { None })
+                .collect();
+            let (at, name) = if lets.is_empty() || r.chance(1, 3) {
+                case.program.items.insert(0, Item::Let("dvv".into(), Expr::Num(3, Radix::Dec)));
+                (0, "dvv".to_string())
+            } else {
+                r.pick(&lets).clone()
+            };
+            if !gen::is_identlike(&name) || case.program.declares().iter().any(|d| d.0 == "dv") {
+                return "noop";
+            }
+            let row = fresh_row(case, r, Some(&name));
+            case.program.items.insert(at + 1, Item::Row(9100, row));
+            case.program.items.insert(
+                at + 2,
+                Item::Declare("dv".into(), Expr::Bin(BinOp::Add, Box::new(Expr::Ident(name)), Box::new(Expr::Num(1, Radix::Dec)))),
+            );
+            "declare_reads_a_name_that_is_a_variable_there"
+        }
         0 if n_sig > 0 => {
             let i = r.below(n_sig);
             case.signals.remove(i);
